@@ -109,6 +109,10 @@ func (r orderedRows) Less(i, j int) bool {
 			if ta < tb {
 				return true
 			}
+			if ta > tb {
+				// a later key must not override the order this key decides
+				return false
+			}
 			continue
 		}
 
